@@ -81,8 +81,9 @@ class Check:
     def removable(self, line):
         return not line.startswith(('hash ', 'param ', 'mod '))
 
-    def shrink(self, case, ctx, kind):
-        """delta-debug the removable lines while the verdict kind stays the same"""
+    def shrink(self, case, ctx, kind, sig=None):
+        """delta-debug the removable lines while the verdict kind AND its signature stay the same (a shrink must not drift from a
+        disagreement into, say, the crash of a known finding)"""
         cid, header, ops = case
         keep = list(range(len(ops)))
         rem = [i for i in keep if self.removable(ops[i])]
@@ -99,7 +100,7 @@ class Check:
             hit = None
             for j, cand in enumerate(cands):
                 k = self.judge(cases[j], c.get('s%d' % j), m.get('s%d' % j))
-                if k[0] == kind:
+                if k[0] == kind and k[2] == sig:
                     hit = cand; break
             if hit is not None:
                 keep = hit; rem = [i for i in keep if self.removable(ops[i])]; n = max(n - 1, 2)
@@ -243,7 +244,7 @@ class Check:
         if side: pass
         elif prop_bad:
             case, k = prop_bad[0]
-            small = self.shrink(case, ctx, 'prop')
+            small = self.shrink(case, ctx, 'prop', k[2])
             cc, mm = self.run_both([small], ctx, 'final')
             k2 = self.judge(small, cc.get(small[0]), mm.get(small[0]))
             p = self.write_replay('violation_%s.txt' % case[0], small, cc.get(small[0]), mm.get(small[0]),
